@@ -190,6 +190,7 @@ type LogWrite struct {
 	Idx      int       `json:"idx"`
 	Firing   []uint64  `json:"firing"`
 	Resolved []uint64  `json:"resolved"`
+	Oversize bool      `json:"oversize,omitempty"` // the broadcast exceeds the gossip limit: sent reliably, peer by peer
 }
 
 // Arrival is one notification-log entry delivered by the harness network to an instance.
